@@ -234,7 +234,7 @@ def main():
         src = 'enum En%d { %s };\n#define MAC%d (%s)\nstruct St%d { int a[%s]; };\n' % (h, body, h, X.minimal(mac), h, X.minimal(arr))
         hp = os.path.join(wd, 'h%d.h' % h)
         open(hp, 'w').write(src)
-        p = vlib.sh([b['interrogate'], '-oc', 'h.cxx', '-od', 'h.in', '-module', 'm', '-library', 'l', '-promiscuous', 'h%d.h' % h], cwd=wd)
+        p = vlib.sh([b['interrogate'], '-DCPPPARSER', '-oc', 'h.cxx', '-od', 'h.in', '-module', 'm', '-library', 'l', '-promiscuous', 'h%d.h' % h], cwd=wd)
         line = '(' + ' '.join('-' if i is None else X.sexp(i) for i in inits) + ')'
         m_impl, m_spec = vlib.run_model('C07', 'enum', [line])[0].split(' | ')
         m_impl = m_impl.split()
